@@ -35,6 +35,7 @@ fn main() {
     let rest = &args[1..];
     let code = match rest[0].as_str() {
         "C01" => dispatch::<scn::c01_load::C01>(cmd, rest),
+        "C02" => dispatch::<scn::c02_total::C02>(cmd, rest),
         "C19" => dispatch::<scn::c19_pgp::C19>(cmd, rest),
         other => {
             eprintln!("property {other} is not claimed by this engine");
